@@ -516,7 +516,13 @@ def r8(ctx, lib):
     clamps = [c for c in sl.calls if c.matches(r'^std::cmp::min$|Ord::min$|::truncate$') or (c.matches(r'Iterator::take$') and not backslice(b, [c.args[0]]).has_call(r'rand::|uuid::'))]
     # the clamp is the constant handed to min() itself; only when there is none, a constant its operands are computed from
     direct = [k for c in clamps for k in [const_int(a) for a in c.args] if k is not None and 16 < k < 256]
-    indirect = [k for c in clamps for v in slice_const_values(lib, backslice(b, c.args)) for k in [const_int({'k': {'v': v}}) if v else None] if k is not None and 16 < k < 256]
+    def copied_const(a):
+        """a constant that reaches the operand by plain copies (no arithmetic, no call on the way)"""
+        sl_ = backslice(b, [a])
+        if sl_.calls or any(st['rv']['k'] in ('bin', 'checked_bin', 'un') for blk in b.blocks for st in blk['stmts'] if st['p'][0] in sl_.locals):
+            return []
+        return [k for v in slice_const_values(lib, sl_) for k in [const_int({'k': {'v': v}}) if v else None] if k is not None]
+    indirect = [k for c in clamps for a in c.args if const_int(a) is None for k in copied_const(a) if 16 < k < 256]
     cands = direct or indirect
     bound = min(cands) if cands else None
     take = [const_int(c.args[1]) for c in sl.calls if c.matches(r'Iterator::take$') and len(c.args) > 1 and const_int(c.args[1]) is not None and const_int(c.args[1]) <= 64]
